@@ -250,6 +250,11 @@ pub const FINDINGS: &[Finding] = &[
         hit: |_, n| matches!(n.e, Expr::Signed(a) if !matches!(**a, Expr::Ref(_))),
     },
     Finding {
+        key: "unsigned-cast-of-expression",
+        what: "JIT and cc: the operand of $unsigned(<expression>) is evaluated at the width of the surrounding context instead of self-determined (`$unsigned(a + b)` of 1-bit a, b gives 2)",
+        hit: |m, n| matches!(n.e, Expr::Unsigned(a) if !matches!(**a, Expr::Ref(_)) && n.ctx.w > ty_of(m, a).w),
+    },
+    Finding {
         key: "width-cast-of-signed-operand",
         what: "`e as N` of a signed operand is emitted as N'(e) (signed, LRM 6.24.1) but every engine and compile-time evaluation treat the result as unsigned and zero-extend the operand",
         hit: |m, n| matches!(n.e, Expr::Cast(a, CastTo::Width(_)) if ty_of(m, a).signed),
@@ -302,10 +307,14 @@ pub const FINDINGS: &[Finding] = &[
     },
     Finding {
         key: "jit-signed-narrowing-store",
-        what: "JIT: a bitwise operator or if-expression over signed operands of different widths stored into a narrower target is not masked to the target width (the sign-extended operand leaks above it)",
-        hit: |m, n| match n.e {
-            Expr::Bin(BinOp::And | BinOp::Or | BinOp::Xor | BinOp::Xnor, a, b) | Expr::If(_, a, b) => n.ctx.signed && ty_of(m, a).w != ty_of(m, b).w && (!n.root || n.dest_w < n.ctx.w),
-            _ => false,
+        what: "JIT: a bitwise operator or if / case expression over signed operands of different widths stored into a narrower target is not masked to the target width (the sign-extended operand leaks above it)",
+        hit: |m, n| {
+            let ops: Vec<&Expr> = match n.e {
+                Expr::Bin(BinOp::And | BinOp::Or | BinOp::Xor | BinOp::Xnor, a, b) | Expr::If(_, a, b) => vec![a, b],
+                Expr::Case(_, arms, d) => arms.iter().map(|x| &x.1).chain(std::iter::once(&**d)).collect(),
+                _ => return false,
+            };
+            n.ctx.signed && ops.iter().any(|a| ty_of(m, a).w != ty_of(m, ops[0]).w || ty_of(m, a).w < n.ctx.w) && (!n.root || n.dest_w < n.ctx.w)
         },
     },
     Finding {
@@ -345,8 +354,16 @@ pub const FINDINGS: &[Finding] = &[
     },
     Finding {
         key: "comptime-conditional-signed-arms",
-        what: "compile-time evaluation: an if / case / switch expression whose arms are all signed is sign-extended even when the surrounding expression is unsigned",
-        hit: |m, n| matches!(n.e, Expr::If(..) | Expr::Case(..) | Expr::Switch(..)) && n.in_ctx && ty_of(m, n.e).signed && !n.ctx.signed,
+        what: "compile-time evaluation: a signed arm of an if / case / switch expression is sign-extended even when the expression (other arm or surrounding operator unsigned) is unsigned",
+        hit: |m, n| {
+            let arms: Vec<&Expr> = match n.e {
+                Expr::If(_, a, b) => vec![a, b],
+                Expr::Case(_, arms, d) => arms.iter().map(|x| &x.1).chain(std::iter::once(&**d)).collect(),
+                Expr::Switch(arms, d) => arms.iter().map(|x| &x.1).chain(std::iter::once(&**d)).collect(),
+                _ => return false,
+            };
+            n.in_ctx && !n.ctx.signed && arms.iter().any(|a| ty_of(m, a).signed)
+        },
     },
     Finding {
         key: "cc-wide-signed-compare",
@@ -424,10 +441,15 @@ pub const FINDINGS: &[Finding] = &[
     },
     Finding {
         key: "cranelift-panic-wide-ternary",
-        what: "JIT and cc: an if-expression in a context wider than 64 bits with an arm narrower than the context panics inside Cranelift lowering (`Option::unwrap()` on `None`, select on i128)",
-        hit: |m, n| match n.e {
-            Expr::If(_, a, b) => n.ctx.w > 64 && (ty_of(m, a).w < n.ctx.w || ty_of(m, b).w < n.ctx.w),
-            _ => false,
+        what: "JIT and cc: an if / case expression in a context wider than 64 bits with an arm narrower than the context panics inside Cranelift lowering (`Option::unwrap()` on `None`, select on i128)",
+        hit: |m, n| {
+            let arms: Vec<&Expr> = match n.e {
+                Expr::If(_, a, b) => vec![a, b],
+                Expr::Case(_, arms, d) => arms.iter().map(|x| &x.1).chain(std::iter::once(&**d)).collect(),
+                Expr::Switch(arms, d) => arms.iter().map(|x| &x.1).chain(std::iter::once(&**d)).collect(),
+                _ => return false,
+            };
+            n.ctx.w > 64 && arms.iter().any(|a| ty_of(m, a).w < n.ctx.w)
         },
     },
     Finding {
